@@ -4,7 +4,7 @@ from ..paths import PathEnum
 from ..shapes import Shapes, shape_s, TOP
 from ..tables import enum_const_table, string_matcher
 from .fields import field_writers
-from .util import payload_of, result_test, option_test, tested_call, CASEFOLD, LOWER, NEUTRAL_STR, TRIM, const_of, is_call, last_seg, look, norm, option_is_some, transforms, truth
+from .util import propagated_error, payload_of, result_test, option_test, tested_call, CASEFOLD, LOWER, NEUTRAL_STR, TRIM, const_of, is_call, last_seg, look, norm, option_is_some, transforms, truth
 
 EXPLANATION = (
     "Static decision of the header-line parser by path-sensitive dataflow over Headers::parse_header_line, "
@@ -171,7 +171,7 @@ def line(ctx):
     facts = ctx.facts
     fn = facts.fn(PHL)
     ctx.touched(fn)
-    leaves = PathEnum(fn, facts).run()
+    leaves = PathEnum(fn, facts, lower=True).run()    # closures given to map_err / ok_or_else build the errors: part of the function
     ctx.ob("R15.3", "loop-free", not [l for l in leaves if l.kind == "loop"], "parse_header_line is loop-free (%d paths)" % len(leaves), fn.loc(0))
     S = Shapes(facts)
     arms = {}
@@ -422,6 +422,9 @@ def block(ctx, rule):
 
     def returns_err_of(lf):
         r = lf.ret()
+        if lf.kind == "return" and is_call(look(r), "from_residual"):
+            src, errv = propagated_error(r)      # `line_parser(..)?`: the parser's own error
+            return errv is None and is_phl(src)
         if not (lf.kind == "return" and r[0] == "agg" and r[2] == "Err"):
             return False
         e = look(r[3][0])
